@@ -14,7 +14,9 @@
    x * y, x // y, x % y on two secret integers, and x < k, k < y (reflected), x // k with an int k (the C05_op_ theorems).
    Also at the operator level: +, -, unary -, * with an int on either side, >, >=, !=, == with an int, exact division, and the
    connectives &, |, ^, ~ on secret booleans.
-   NOT proved in Coq: the remaining operand-kind combinations (bool with int, other reflected operators), shifts, bitwise operators on whole
+   Bitwise &, |, ^ on two secret integers and >> by a public amount return Python's result on the operands reduced to bitlength
+   bits (Proofs/BitValues.v).
+   NOT proved in Coq: the remaining operand-kind combinations (bool with int, other reflected operators), << and shifts by a secret amount, ~ on whole
    numbers, powers, abs, division inside the domain; they are decided by the differential check of the real code against a
    plain-integer reference on an operator x operand-kind matrix and random programs. *)
 From Coq Require Import ZArith List Bool Lia Znumtheory.
@@ -121,6 +123,20 @@ Theorem C05_op_bool_xor : forall o o' a b, returns (pyop c OXor (PBool o a) (PBo
 Proof. exact (op_bool_xor ins ig c s sg I). Qed.
 Theorem C05_op_bool_not : forall o a, returns (unop c (pyop c) UInvert (PBool o a)) s sg (isb (fun r => r = 1 - v a)).
 Proof. first [exact (op_bool_not ins ig c s sg)|exact (op_bool_not ins ig c s sg I)]. Qed.
+(* bitwise operators and right shift on whole numbers: Python's result on the operands reduced to bitlength bits, i.e. Python's
+   x & y, x | y, x ^ y, x >> k for operands in [0, 2^bitlength) *)
+Theorem C05_op_and : forall x y, vscopedb (npub s) (npriv s) (sval y) = true -> returns (pyop c OAnd (PLC x) (PLC y)) s sg (islc (fun r => r = Z.land (v x) (v y) mod 2 ^ Z.of_nat (nbits c))).
+Proof. exact (op_and ins ig c s sg I). Qed.
+Theorem C05_op_or : forall x y, vscopedb (npub s) (npriv s) (sval y) = true -> returns (pyop c OOr (PLC x) (PLC y)) s sg (islc (fun r => r = Z.lor (v x) (v y) mod 2 ^ Z.of_nat (nbits c))).
+Proof. exact (op_or ins ig c s sg I). Qed.
+Theorem C05_op_xor : forall x y, vscopedb (npub s) (npriv s) (sval y) = true -> returns (pyop c OXor (PLC x) (PLC y)) s sg (islc (fun r => r = Z.lxor (v x) (v y) mod 2 ^ Z.of_nat (nbits c))).
+Proof. exact (op_xor ins ig c s sg I). Qed.
+Theorem C05_op_rshift_secret_int : forall x k, 0 <= k -> returns (pyop c ORshift (PLC x) (PInt k)) s sg
+  (fun r sg' => match r with
+                | PLC q => Sym.veval p ins ig sg' (sval q) = Z.shiftr (v x) k mod 2 ^ Z.of_nat (nbits c - Z.to_nat k)
+                | PInt z => z = 0 /\ (nbits c <= Z.to_nat k)%nat
+                | _ => False end).
+Proof. exact (op_rshift_int ins ig c s sg I). Qed.
 End C05.
 
 (* ---- inside the documented domain the operations do not raise (and return the Python value) ---- *)
@@ -168,6 +184,10 @@ Example C05_example :
 Proof. vm_compute. split; reflexivity. Qed.
 
 Print Assumptions C05_op_lt.
+Print Assumptions C05_op_and.
+Print Assumptions C05_op_or.
+Print Assumptions C05_op_xor.
+Print Assumptions C05_op_rshift_secret_int.
 Print Assumptions C05_op_bool_and.
 Print Assumptions C05_op_bool_or.
 Print Assumptions C05_op_bool_xor.
